@@ -37,7 +37,7 @@ NATIVE_UNITS = {
                            "role": "witness", "for_fns": ["apply_procedure"]},
     "import_witness": {"file": "src/interpreter/interpreter.rs", "source": "import_sets.rs",
                        "modpath": "interpreter::interpreter", "test": "verif_native_import_witness",
-                       "role": "witness", "for_fns": ["eval_import_set"]},
+                       "role": "witness", "for_fns": ["eval_import_set", "eval_import"]},
     "import_cycle_witness": {"file": "src/interpreter/interpreter.rs", "source": "import_sets.rs",
                              "modpath": "interpreter::interpreter", "test": "verif_native_import_cycle_witness",
                              "role": "witness", "for_fns": ["eval_import_set"]},
@@ -112,15 +112,16 @@ PROPS = {
                         "HashMap::insert, Vec::extend behave as documented (wrappers / opaque type)"],
     },
     "C12": {
-        "verus": ["interp_import"], "kani": [], "native": ["import_witness"],
+        "verus": ["interp_import", "interp_import_union"], "kani": [], "native": ["import_witness"],
         "level": "proof",
         "explanation": "Interpreter::eval_import_set is proved, for import sets nested to any depth, against the import-set algebra as a "
                        "recursive relation: a library contributes exactly its exports; only keeps exactly the listed names, except drops "
                        "exactly the listed names, prefix puts the prefix in front of every name, rename replaces the listed names (the "
                        "last pair for a name wins) and leaves the others -- every binding keeps the value it had under its original name; "
-                       "an error of the inner set is passed on unchanged.",
-        "unverified": ["eval_import (the union of several import sets of one declaration: HashMap::extend, then define into the frame) and "
-                       "eval_library_definition (export specs with rename): not under contract",
+                       "an error of the inner set is passed on unchanged. "
+                       "Interpreter::eval_import (unit interp_import_union) is proved to define in the importing frame every binding of the "
+                       "UNION of its import sets, a later set winning on a name several sets bind.",
+        "unverified": ["that eval_import defines NOTHING ELSE in the frame (define is a history fact here: the frame's state is outside Verus)",
                        "'the outcome is the same on every run': the ORDER of a library's export list comes from a HashMap",
                        "Library::iter_definitions and the std adapters filter/map/collect, HashSet/HashMap construction: assumed contracts (wrappers)"],
         "assumptions": ["the std iterator adapters and hash collections behave as their documentation says (wrappers listed under trusted)"],
